@@ -1,15 +1,18 @@
 #!/bin/bash
 # usage: tools/mutcheck.sh <seeded-name> <Cxx> [<Cyy> ...]
-# Applies /verif/seeded/<name>/patch.diff to /repo, runs the given checks, restores /repo. Self-validation only.
+# Self-validation only: copies /repo to a scratch directory, applies /verif/seeded/<name>/patch.diff there
+# and runs the given checks against the copy (VERIF_REPO). /repo itself is never touched; the evidence
+# files and the generated facts are restored afterwards.
 name=$1; shift
-cd /repo || exit 2
-if ! git diff --quiet; then echo "/repo has uncommitted changes"; exit 2; fi
-git apply /verif/seeded/$name/patch.diff || { echo "patch does not apply"; exit 2; }
+S=/var/tmp/goat-verif-mut
+rm -rf $S && mkdir -p $S && cp -r /repo $S/repo && rm -rf $S/repo/.git/worktrees
+( cd $S/repo && git apply /verif/seeded/$name/patch.diff ) || { echo "patch does not apply"; rm -rf $S; exit 2; }
 cd /verif
 rm -rf .work/evidence-backup && cp -r evidence .work/evidence-backup
-trap 'git -C /repo checkout -- . ; rm -rf /verif/evidence; mv /verif/.work/evidence-backup /verif/evidence' EXIT
+cp lean/Goat/Generated/Facts.lean .work/Facts.backup
+trap 'rm -rf /verif/evidence; mv /verif/.work/evidence-backup /verif/evidence; cp /verif/.work/Facts.backup /verif/lean/Goat/Generated/Facts.lean; rm -rf /var/tmp/goat-verif-mut /verif/harness/go.alt.mod /verif/harness/go.alt.sum' EXIT
 for p in "$@"; do
-  out=$(./check $p 2>&1)
+  out=$(VERIF_REPO=$S/repo ./check $p 2>&1)
   n=$(echo "$out" | grep -c '^VIOLATION')
   first=$(echo "$out" | grep '^VIOLATION' | head -2 | tr '\n' ' ')
   echo "$name $p: violations=$n  $first"
